@@ -43,6 +43,19 @@ def q(x, scale=10**8, lim=2 * 10**9):
     return int(round(v))
 
 
+# TLC 1.8 ABORTS on `"nan" \in Int`, `5 = "a"`, `5 \in {"nan"}`: a field that is sometimes a number must
+# ALWAYS be a number.  qs() is q() with integer sentinels; specs test IsFin(v) == -QLIM <= v /\ v <= QLIM first.
+QLIM = 2000000000
+QNAN, QINF, QNINF, QBIG, QNBIG = 2000000001, 2000000002, 2000000003, 2000000004, -2000000004
+
+
+def qs(x, scale=10**8):
+    v = q(x, scale, lim=QLIM)
+    if isinstance(v, int):
+        return v
+    return {"nan": QNAN, "inf": QINF, "-inf": QNINF, "big": QBIG, "-big": QNBIG}[v]
+
+
 def ints(arr):
     """(list of python ints, exact flag) from a numeric array whose entries should be integers."""
     import numpy as np
@@ -300,7 +313,16 @@ class Check:
         return 1 if unlisted else 0
 
 
+_COMMITS = {}
+
+
 def repo_commit(repo):
+    if repo not in _COMMITS:
+        _COMMITS[repo] = _repo_commit(repo)
+    return _COMMITS[repo]
+
+
+def _repo_commit(repo):
     import subprocess
     try:
         return subprocess.run(["git", "-C", repo, "rev-parse", "--short", "HEAD"], capture_output=True, text=True).stdout.strip()
